@@ -16,11 +16,12 @@ Definition xr0 : revision := mk_rev [((1, 0)%N, OName (B "Catalog")); ((2, 0)%N,
 Definition xr1 : revision := mk_rev [((2, 0)%N, OInt 7); ((3, 0)%N, OStr (B "abc"))] [4%N] (1, 0)%N.
 Definition ex_hist : history := [xr0; xr1].
 
-Definition xrl0 : rlayout :=
+Definition xrl0_with (tsp : bytes) : rlayout :=
   mk_rlayout [xlo 1 (B "/Catalog"); xlo 1 (B "5"); xlo 1 (B "true")] [] xnl
     [mk_tsub [] 0 1 1 xnl [mk_tent 0 65535 false [32; 10]%N; mk_tent 0 0 true [32; 10]%N; mk_tent 0 0 true [32; 10]%N];
      mk_tsub [] 4 1 1 xnl [mk_tent 0 0 true [32; 10]%N]]
-    xnl (B "<</Root 1 0 R>>") (xnl ++ B "startxref" ++ xnl ++ B "70" ++ xnl ++ B "%%EOF" ++ xnl).
+    xnl tsp (xnl ++ B "startxref" ++ xnl ++ B "70" ++ xnl ++ B "%%EOF" ++ xnl).
+Definition xrl0 : rlayout := xrl0_with (B "<</Root 1 0 R>>").
 Definition xrl1 : rlayout :=
   mk_rlayout [xlo 2 (B "7"); xlo 1 (B "(abc)")] [] xnl
     [mk_tsub [] 2 1 1 xnl [mk_tent 0 0 true [32; 10]%N; mk_tent 0 0 true [32; 10]%N; mk_tent 0 1 false [32; 10]%N]]
@@ -97,15 +98,15 @@ Ltac x_sect :=
   repeat split; try discriminate; try lia; try (repeat constructor; fail); auto;
   repeat apply Forall_cons; try apply Forall_nil; apply x_went; try lia; cbn; tauto.
 
-Lemma xwf0 : wf_rev 9 None xr0 xrl0.
+Lemma xwf0_gen prev tsp : wf_trailer_p (1, 0)%N prev xnl tsp -> wf_rev 9 prev xr0 (xrl0_with tsp).
 Proof.
-  constructor.
+  intros Wt. constructor.
   - reflexivity.
   - cbn [r_objs xr0 rl_objs xrl0 combine]. repeat apply Forall_cons; [| | |apply Forall_nil]; cbn [fst snd].
     + x_obj. exact ex_sp_catalog.
     + x_obj. exact (xsp_digit 53 ltac:(lia)).
     + x_obj. exact xsp_true.
-  - cbn [xrl0 rl_xpre rl_xeol rl_table]. x_sect.
+  - cbn [xrl0_with rl_xpre rl_xeol rl_table]. x_sect.
   - vm_compute. reflexivity.
   - vm_compute. repeat constructor; cbn; intuition discriminate.
   - intros e Hin U. vm_compute in Hin. repeat (destruct Hin as [<-|Hin]); try destruct Hin; vm_compute in U; try discriminate; cbn; tauto.
@@ -115,8 +116,13 @@ Proof.
     + exists (mk_xent 4 0 (XrefTab.XInUse 0)). split; [vm_compute; tauto|]. split; reflexivity.
   - intros e Hin U. vm_compute in Hin. repeat (destruct Hin as [<-|Hin]); try destruct Hin; vm_compute in U; try discriminate; cbn; tauto.
   - intros n Hn. cbn in Hn. destruct Hn as [<-|[]]. exists (mk_xent 0 65535 (XrefTab.XFree 0)). split; [vm_compute; tauto|]. split; reflexivity.
-  - split; [repeat constructor|]. split; [vm_compute; reflexivity|].
-    exists [(B "Root", ORef 1 0)]. split; [exact ex_sp_trailer|]. repeat split; reflexivity.
+  - exact Wt.
+Qed.
+
+Lemma xwf0 : wf_rev 9 None xr0 xrl0.
+Proof.
+  apply xwf0_gen. split; [repeat constructor|]. split; [vm_compute; reflexivity|].
+  exists [(B "Root", ORef 1 0)]. split; [exact ex_sp_trailer|]. repeat split; reflexivity.
 Qed.
 
 Lemma xwf1 : wf_rev 206 (Some 70%N) xr1 xrl1.
@@ -166,4 +172,32 @@ Example ex_hist_loaded :
 Proof.
   destruct (load_bytes_history_classic false ex_hist ex_hlayout ex_wf_history ex_wf_layouts) as (c & L & K).
   exists c. split; [exact L|]. rewrite !K. repeat split.
+Qed.
+
+(* a base revision whose trailer says /Prev 70 — the offset of its own table: rejected *)
+Definition ex_cycle_layout : hlayout := mk_hlayout [] (B "1.4" ++ xnl) [xrl0_with (B "<</Root 1 0 R/Prev 70>>")] xnl 2 xnl xnl.
+
+Lemma ex_cycle_wf : wf_layouts_p (Some 70%N) [xr0] ex_cycle_layout.
+Proof.
+  constructor.
+  - vm_compute. reflexivity.
+  - reflexivity.
+  - replace (place (len (hhead ex_cycle_layout)) (Some 70%N) [xr0] (hl_revs ex_cycle_layout))
+      with [(9, Some 70%N, xr0, xrl0_with (B "<</Root 1 0 R/Prev 70>>"))] by (vm_compute; reflexivity).
+    apply Forall_cons; [|apply Forall_nil]. apply xwf0_gen.
+    split; [repeat constructor|]. split; [vm_compute; reflexivity|].
+    exists [(B "Prev", OInt 70); (B "Root", ORef 1 0)]. split; [exact xsp_trailer1|]. repeat split; reflexivity.
+  - split; [repeat constructor|discriminate].
+  - split; [cbn; lia|]. split; vm_compute; reflexivity.
+  - repeat constructor.
+  - repeat constructor; discriminate.
+Qed.
+
+Example ex_cycle_rejected : load_bytes false (render_history_classic [xr0] ex_cycle_layout) = Rejected.
+Proof.
+  apply (load_bytes_prev_dangling false [xr0] ex_cycle_layout (Some 70%N)) with (t := 70%N).
+  - split; [discriminate|]. repeat constructor; cbn; intuition discriminate.
+  - exact ex_cycle_wf.
+  - reflexivity.
+  - left. vm_compute. tauto.
 Qed.
